@@ -339,6 +339,13 @@ func (w *World) Callees(g *callgraph.Graph, site ssa.CallInstruction) []*ssa.Fun
 // (needed when a closure is created in the closure and handed to a callee
 // outside the package, e.g. sort.SliceStable).
 func (w *World) Closure(g *callgraph.Graph, entries []*ssa.Function, viaMakeClosure bool) map[*ssa.Function]bool {
+	return w.ClosureSkip(g, entries, viaMakeClosure, nil)
+}
+
+// ClosureSkip is Closure with a filter: call edges for which skip returns
+// true are not followed (used for call sites proved dead in the context of
+// the entry points, with the proof recorded by the caller).
+func (w *World) ClosureSkip(g *callgraph.Graph, entries []*ssa.Function, viaMakeClosure bool, skip func(e *callgraph.Edge) bool) map[*ssa.Function]bool {
 	seen := map[*ssa.Function]bool{}
 	var work []*ssa.Function
 	push := func(f *ssa.Function) {
@@ -355,6 +362,9 @@ func (w *World) Closure(g *callgraph.Graph, entries []*ssa.Function, viaMakeClos
 		work = work[:len(work)-1]
 		if n := g.Nodes[fn]; n != nil {
 			for _, e := range n.Out {
+				if skip != nil && skip(e) {
+					continue
+				}
 				push(e.Callee.Func)
 			}
 		}
@@ -362,7 +372,7 @@ func (w *World) Closure(g *callgraph.Graph, entries []*ssa.Function, viaMakeClos
 			for _, b := range fn.Blocks {
 				for _, in := range b.Instrs {
 					if mc, ok := in.(*ssa.MakeClosure); ok {
-						if f, ok := mc.Fn.(*ssa.Function); ok {
+						if f, ok := mc.Fn.(*ssa.Function); ok && w.closurePassedOut(mc) {
 							push(f)
 						}
 					}
@@ -371,6 +381,56 @@ func (w *World) Closure(g *callgraph.Graph, entries []*ssa.Function, viaMakeClos
 		}
 	}
 	return seen
+}
+
+// closurePassedOut reports whether a closure value is handed to a callee
+// outside the package (e.g. the less function of sort.SliceStable): such a
+// callee invokes it although no call edge is visible in the package.
+func (w *World) closurePassedOut(mc *ssa.MakeClosure) bool {
+	seen := map[ssa.Value]bool{}
+	var visit func(v ssa.Value) bool
+	visit = func(v ssa.Value) bool {
+		if seen[v] {
+			return false
+		}
+		seen[v] = true
+		for _, ref := range referrers(v) {
+			switch x := ref.(type) {
+			case ssa.CallInstruction:
+				cc := x.Common()
+				isArg := false
+				for _, a := range cc.Args {
+					if a == v {
+						isArg = true
+					}
+				}
+				if !isArg {
+					continue
+				}
+				if _, isBuiltin := cc.Value.(*ssa.Builtin); isBuiltin {
+					continue
+				}
+				callee := cc.StaticCallee()
+				if callee == nil || !w.InPkg(callee) {
+					return true
+				}
+			case *ssa.ChangeType:
+				if visit(x) {
+					return true
+				}
+			case *ssa.MakeInterface:
+				if visit(x) {
+					return true
+				}
+			case *ssa.Phi:
+				if visit(x) {
+					return true
+				}
+			}
+		}
+		return false
+	}
+	return visit(mc)
 }
 
 // SortedNames lists a function set by name.
